@@ -56,7 +56,11 @@ func runC08(c *Ctx) {
 		}
 		return call.Call.Args[0], true
 	}
-	methods := P.Methods("cache", "Cache")
+	// the bodies of the methods: the methods themselves and the closures they run (a body handed to a lock wrapper)
+	var methods []*ssa.Function
+	for _, top := range P.Methods("cache", "Cache") {
+		methods = append(methods, withClosures(top)...)
+	}
 	for _, fn := range methods {
 		if P.isCanaryFn(fn) {
 			continue
@@ -81,7 +85,7 @@ func runC08(c *Ctx) {
 						if !truth || ex.Index != 1 {
 							continue
 						}
-						if chk, ok := ex.Tuple.(*ssa.Call); ok && chk.Call.IsInvoke() && chk.Call.Method.Name() == "Check" && chk.Call.Args[0] == k {
+						if chk, ok := ex.Tuple.(*ssa.Call); ok && chk.Call.IsInvoke() && chk.Call.Method.Name() == "Check" && sameV(chk.Call.Args[0], k) {
 							v = extractOf(chk, 0)
 						}
 					}
@@ -114,7 +118,7 @@ func runC08(c *Ctx) {
 					switch x := in.(type) {
 					case *ssa.Call:
 						if isLoad(x.Call.Value, onEvictF) {
-							if len(x.Call.Args) == 2 && x.Call.Args[0] == d.k && x.Call.Args[1] == d.v {
+							if len(x.Call.Args) == 2 && sameV(x.Call.Args[0], d.k) && sameV(x.Call.Args[1], d.v) {
 								nCb++
 							} else {
 								probs = append(probs, "an eviction callback with other arguments than the departing (key, value)")
@@ -140,7 +144,7 @@ func runC08(c *Ctx) {
 								if !feeds {
 									continue
 								}
-								if arg == d.v {
+								if sameV(arg, d.v) {
 									nSub++
 								} else {
 									probs = append(probs, "size is reduced by sizeOf of something other than the departing value ("+ksym(arg)+")")
@@ -225,7 +229,7 @@ func runC08(c *Ctx) {
 							case *ssa.BinOp:
 								if y.Op == token.ADD {
 									for _, o := range []ssa.Value{y.X, y.Y} {
-										if arg, ok := isSizeOfCall(o); ok && arg == val {
+										if arg, ok := isSizeOfCall(o); ok && sameV(arg, val) {
 											found = true
 										}
 									}
@@ -309,9 +313,22 @@ func runC08(c *Ctx) {
 		})
 	}
 	// refusal precedes every effect of Put
-	if put := P.Func("cache", "Cache", "Put"); put != nil && len(put.Params) == 3 {
+	putTop := P.Func("cache", "Cache", "Put")
+	var put *ssa.Function
+	var val ssa.Value
+	if putTop != nil {
+		// the body that stores the new entry (Put itself, or the closure it hands to a lock wrapper); the
+		// value is what that body passes to Store.Store
+		for _, f := range withClosures(putTop) {
+			allInstrs(f, func(in ssa.Instruction) {
+				if n, call := invokeName(in); n == "Store" && len(call.Call.Args) == 2 && put == nil {
+					put, val = f, call.Call.Args[1]
+				}
+			})
+		}
+	}
+	if put != nil && val != nil {
 		c.sawFn(fnName(put))
-		val := put.Params[2]
 		var refusal *ssa.If
 		allInstrs(put, func(in ssa.Instruction) {
 			iff, ok := in.(*ssa.If)
@@ -323,7 +340,7 @@ func runC08(c *Ctx) {
 				return
 			}
 			arg, isSz := isSizeOfCall(cm.X)
-			if isSz && arg == ssa.Value(val) && isLoad(cm.Y, limitF) && cm.Op == token.GTR {
+			if isSz && sameV(arg, val) && isLoad(cm.Y, limitF) && cm.Op == token.GTR {
 				refusal = iff
 			}
 		})
@@ -381,11 +398,13 @@ func runC08(c *Ctx) {
 	if has := P.Func("cache", "Cache", "Has"); has != nil {
 		c.sawFn(fnName(has))
 		var used []string
-		allInstrs(has, func(in ssa.Instruction) {
-			if n, _ := invokeName(in); n != "" {
-				used = append(used, n)
-			}
-		})
+		for _, hf := range withClosures(has) {
+			allInstrs(hf, func(in ssa.Instruction) {
+				if n, _ := invokeName(in); n != "" {
+					used = append(used, n)
+				}
+			})
+		}
 		c.judge(len(used) == 1 && used[0] == "Check", "R-CHECK-PURE", "cache.(*Cache).Has:store calls", has.Pos(), "only Store.Check", fmt.Sprintf("Has calls %v on the store (only Check does not count as a use)", used))
 	}
 	roles := resolveLRU(P)
@@ -523,4 +542,13 @@ func runC08(c *Ctx) {
 			}
 		})
 	}
+}
+
+// sameV: the same SSA value, or two reads of the same never-reassigned variable (a parameter captured by a
+// closure is re-loaded from its cell at every use).
+func sameV(a, b ssa.Value) bool {
+	if a == nil || b == nil {
+		return a == b
+	}
+	return a == b || sym(a) == sym(b)
 }
